@@ -38,6 +38,9 @@ func main() {
 		}
 		fmt.Fprintf(os.Stderr, "loaded in %.1fs\n", time.Since(t0).Seconds())
 		ex := eng.NewExplorer(p, os.Args[2])
+		if w := os.Getenv("GOSYM_WORKERS"); w != "" {
+			fmt.Sscan(w, &ex.Workers)
+		}
 		for _, k := range os.Args[3:] {
 			if strings.HasPrefix(k, "redirect:") {
 				parts := strings.SplitN(strings.TrimPrefix(k, "redirect:"), "=", 2)
